@@ -91,6 +91,26 @@ theorem decode_prefix_safe_py (t : RawTriangle) (h : wf t = true) (hc : coherent
   rw [encodePy_eq_encode t hc] at hn ⊢
   exact decode_prefix_safe t h n hn
 
+/-- **… for EVERY triangle of the domain, coherent or not.** When adjacent cells carry metadata that Python's `==`
+identifies in different representations (`1` / `1.0` / `True`, another insertion order of a detail dict) the untorn
+file reads back as `firstRepr t` (C05.decode_encodePy_firstRepr). Every strict prefix of the file `to_binary`
+really wrote is refused or decodes to exactly the leading cells of THAT triangle — a torn file never yields
+anything the intact file would not yield. (`decode_prefix_safe_py` is the instance `firstRepr t = t`.) -/
+theorem decode_prefix_safe_firstRepr (t : RawTriangle) (h : wf t = true) (n : Nat) (hn : n < (encodePy t).length) :
+    (∃ e, decode ((encodePy t).take n) = .error e) ∨
+    (∃ k, decode ((encodePy t).take n) = .ok ((firstRepr t).take k)) :=
+  decode_prefix_safe_firstRepr_main t h n hn
+
+/-- the Spec predicate on what a torn file of the writer as written returned, against the oracle `firstRepr t` -/
+theorem spec_prefixSafe_firstRepr (t : RawTriangle) (h : wf t = true) (n : Nat) (hn : n < (encodePy t).length)
+    (r : RawTriangle) (hr : decode ((encodePy t).take n) = .ok r) : Spec.C19.prefixSafe (firstRepr t) r = true := by
+  have hcells := firstRepr_cellOk t h
+  rcases decode_prefix_safe_firstRepr t h n hn with ⟨e, he⟩ | ⟨k, hk⟩
+  · rw [he] at hr; cases hr
+  · rw [hk] at hr
+    cases hr
+    exact prefixSafe_take (firstRepr t) hcells k
+
 /-- **the compressed flavour.** gzip is a parameter; the ONE library fact relied on is named as a hypothesis:
 a strict prefix of a (single-member) gzip stream is refused by the decompressor (`EOFError` / `BadGzipFile`).
 Under it every truncation of a `.tribc` file raises — whatever the extension / flag combination (if the reader
